@@ -659,7 +659,7 @@ def run_property(rep, pid):
     rep.stubs += [
         "hash_sha256: injective on its argument (SHA-256 and hash() assumed collision-free); id() values differ from digests",
         "strip_punct: identity (names without punctuation)",
-        "re.match('(?:at )?(\\\\d+)', pin_cite): None for a non-numeric pin cite, else group 1 = the leading number",
+        "re.match('(?:at )?(\\\\d+)', pin_cite): None for a non-numeric pin cite, else group 1 = the leading number (C07 and C05 discharge this abstraction with the pin-cite lemma: the real _has_invalid_pin_cite on <= 5/6 arbitrary characters)",
     ]
     params = {"L": L, "optional_parties": not quick, "ref_fields": not quick, "history": pid == "C06"}
     agg = common.explore_split("vf.harness.c06", params, depth=3 if quick else 4, timeout=6 * 3600)
@@ -747,6 +747,11 @@ def run_property(rep, pid):
         else:
             rep.spurious += 1
             rep.inconc(f"{f['clause']}: model did not reproduce on the real code: {w}")
+    if pid == "C07":
+        # the lemma behind the pin-cite abstraction: the real test on pin-cite *text*
+        from vf.harness import pinlemma
+
+        pinlemma.fold(rep, pid)
     regression(rep, pid)
     selftest(rep)
     titles = {"C06": "the mapping's values are disjoint ordered sub-sequences led by a full citation and two full citations share a resource iff they are equal", "C07": "every non-full citation is attached to a resource only when the reference model's set of admissible resources is that singleton, id. only to its predecessor within the page window", "C08": "resolving every prefix gives the restriction of the whole resolution and no citation joins a resource introduced later"}
@@ -765,6 +770,10 @@ def replay_file(path):
 
     d = json.load(open(path))
     r = d["replay"]
+    if r["kind"] == "pin":
+        from vf.harness import pinlemma
+
+        return pinlemma.replay(r)
     if r["kind"] == "model":
         cs = build_concrete(r["witness"])
         bad, groups = concrete_oracle(cs)
